@@ -165,8 +165,12 @@ for set_type in (set, frozenset):
 
 register_node_traverser(
     bytes,
-    flatten_fn=lambda x: ((x.decode('raw_unicode_escape'),), None),
-    unflatten_fn=lambda values, _: values[0].encode('raw_unicode_escape'),
+    # latin-1 maps every byte to the code point of the same value and back.
+    # (raw_unicode_escape, used previously, additionally interprets backslash-u
+    # escape sequences when decoding, so the six bytes of r'\u0041' came back
+    # as b'A'.)
+    flatten_fn=lambda x: ((x.decode('latin-1'),), None),
+    unflatten_fn=lambda values, _: values[0].encode('latin-1'),
     path_elements_fn=lambda x: (IdentityElement(),),
 )
 
